@@ -58,6 +58,12 @@ func init() {
 		in := f32sFromHex(a[1])
 		n := len(in)
 		g := 64
+		if len(a) > 2 {
+			// start the argument 0..7 floats past a 32-byte boundary: the kernels must not assume alignment
+			var off int
+			fmt.Sscanf(a[2], "%d", &off)
+			g += off % 8
+		}
 		buf := make([]float32, n+2*g)
 		for i := range buf {
 			buf[i] = math.Float32frombits(guardBits)
@@ -160,7 +166,7 @@ func genVec(c *Ctx, n int, kind int) []float32 {
 }
 
 func runC18(c *Ctx) error {
-	c.Res.Rule = "kernel pairs (asmForwardDCT64 / forwardDCT64, asmForwardDCT256 / forwardDCT256, asmDCT2DHash64 / portable 2-D) on: all 64 resp. 256 unit impulses (exhaustive), sign/magnitude edge vectors, pixel-like vectors, ramps, random vectors over 12 decades of scale: bit-for-bit equal results, guard regions of 64 floats before and after the argument intact, |portable - DCT-II(float64)| <= 1e-5 * ||x||_1, and the float64 kernel within 1e-9 * ||x||_1. Correspondence: the Lean semantics of the regenerated assembly and the Lean model of the portable kernels, instantiated with IEEE single precision, against the real kernels on the same vectors (bitwise)."
+	c.Res.Rule = "kernel pairs (asmForwardDCT64 / forwardDCT64, asmForwardDCT256 / forwardDCT256, asmDCT2DHash64 / portable 2-D) on: all 64 resp. 256 unit impulses (exhaustive), sign/magnitude edge vectors, pixel-like vectors, ramps, random vectors over 12 decades of scale: bit-for-bit equal results, the argument placed at every 4-byte alignment, guard regions of at least 64 floats before and after it intact, |portable - DCT-II(float64)| <= 1e-5 * ||x||_1, and the float64 kernel within 1e-9 * ||x||_1. Correspondence: the Lean semantics of the regenerated assembly and the Lean model of the portable kernels, instantiated with IEEE single precision, against the real kernels on the same vectors (bitwise)."
 	type job struct {
 		n    int
 		vec  []float32
@@ -185,7 +191,7 @@ func runC18(c *Ctx) error {
 	out := make([]res, len(jobs))
 	runPool(len(jobs), 20*time.Second, func(wk *Worker, i int) {
 		h := f32sHex(jobs[i].vec)
-		out[i] = res{wk.Call(fmt.Sprintf("dct asm%d %s", jobs[i].n, h)), wk.Call(fmt.Sprintf("dct go%d %s", jobs[i].n, h)), wk.Call("dct f64 " + h)}
+		out[i] = res{wk.Call(fmt.Sprintf("dct asm%d %s %d", jobs[i].n, h, i%8)), wk.Call(fmt.Sprintf("dct go%d %s %d", jobs[i].n, h, i%8)), wk.Call("dct f64 " + h)}
 	})
 	// model side
 	var mreq []string
@@ -266,7 +272,7 @@ func runC18(c *Ctx) error {
 		v := genVec(c, 64*64, []int{0, 1, 1, 3}[c.Rng.Intn(4)])
 		wk := &Worker{Timeout: 20 * time.Second}
 		h := f32sHex(v)
-		a, g := wk.Call("dct asm2d64 "+h), wk.Call("dct go2d64 "+h)
+		a, g := wk.Call(fmt.Sprintf("dct asm2d64 %s %d", h, k%8)), wk.Call(fmt.Sprintf("dct go2d64 %s %d", h, k%8))
 		wk.Close()
 		c.Count(fmt.Sprint("2d", fnv32([]byte(h))), true)
 		c.Stat("kernel.2d64")
